@@ -204,6 +204,91 @@ class Unit:
         self.sections.append(s)
         return s
 
+    def trait_impl(self, file, path, extra="", fns=None, header_subs=None, props=None, label=None, vis=False):
+        """copy a whole `impl Trait for Type { .. }` block: associated types/consts are kept, `extra` (spec fns of the trait) is
+        inserted after them, every fn listed in `fns` (name -> dict of the body options of `fn`: subs, chains, closures, loops,
+        index_loops, post_subs, rules_, header_subs, ret, spec, proof_at_start) is copied with its body untouched except by those
+        rules. Functions of the impl that are not listed are dropped (recorded). The contract of a trait method is the one
+        declared on the trait, so no canary copy is made (a renamed method would not be a member of the trait)."""
+        if isinstance(path, str):
+            path = [p.strip() for p in path.split(" :: ") if p.strip()]
+        src = load(self.repo, file)
+        it = src.find(path)
+        if it.kind != "impl":
+            raise LostAnchor("%s: %r is not an impl" % (file, path))
+        fired = []
+        header = it.header_text()
+        header, _ = rules.strip_comments(header)
+        header, n = rules.strip_attrs(header)
+        header = self._apply_subs(header, header_subs, fired)
+        body_src, _ = rules.strip_comments(it.body_text())
+        # associated items other than fns: `type X = ..;` / `const X: T = ..;`
+        assoc = re.findall(r"^\s*((?:type|const)\s+[^;{}]*;)", body_src, flags=re.M)
+        assoc_txt = "".join("    " + self._apply_subs(a, header_subs, fired) + "\n" for a in assoc)
+        pieces = [header.rstrip() + " {\n", assoc_txt]
+        if extra.strip():
+            pieces.append(extra.strip("\n") + "\n")
+        kept = []
+        for name, opt in (fns or {}).items():
+            sub_it = src.find(path + ["fn " + name])
+            h, b = self._process_fn(sub_it, fired, vis=vis, **opt)
+            spec_txt = (opt.get("spec") or "").strip("\n")
+            pieces.append("    " + h.strip() + "\n" + (spec_txt + "\n" if spec_txt else "") + b.rstrip() + "\n")
+            kept.append(name)
+        pieces.append("}\n")
+        text = "".join(pieces)
+        a, b = it.line_span()
+        meta = dict(file=file, path=" :: ".join(path), lines=[a, b], src_sha256=it.token_hash(),
+                    gen_sha256=hashlib.sha256(text.encode()).hexdigest(), rules=fired, kind="fn",
+                    fn_name=" + ".join(kept), contract="(contract declared on the trait) " + extra.strip()[:400], src_text=it.text())
+        s = Section(label or " :: ".join(path), text, "fn", props or self.props, meta)
+        s.canary_offsets = []
+        self.sections.append(s)
+        return s
+
+    def _process_fn(self, it, fired, subs=None, rules_=DEFAULT_FN_RULES, loops=None, post_subs=None, vis=True, header_subs=None,
+                    ret=None, proof_at_start="", chains=None, closures=None, index_loops=None, regions=None, spec=None):
+        if it.kind != "fn":
+            raise LostAnchor("%r is not a fn" % (it.name,))
+        header = it.header_text()
+        body = it.body_text() if it.body_open is not None else None
+        if body is None:
+            raise LostAnchor("%r has no body" % (it.name,))
+        header, _ = rules.strip_comments(header)
+        header, n = rules.strip_attrs(header)
+        body, _ = rules.strip_comments(body)
+        body, n2 = rules.strip_attrs(body)
+        if n + n2:
+            fired.append(("R-attr", n + n2))
+        for r in rules_:
+            body, n = RULE_FUNCS[r](body)
+            if n:
+                fired.append((r, n))
+        for rg in regions or ():
+            body = apply_region(body, rg, fired)
+        body = self._apply_subs(body, subs, fired)
+        for ch in chains or ():
+            body = apply_chain(body, ch, fired)
+        for cs in closures or ():
+            body = apply_closure(body, cs, fired)
+        if loops:
+            body = self._weave_loops(body, loops, fired)
+        for k in sorted(index_loops or {}, reverse=True):
+            body = apply_index_loop(body, k, index_loops[k], fired)
+        body = self._apply_subs(body, post_subs, fired)
+        if vis:
+            header, n = rules.r_vis_item(header)
+        header = self._apply_subs(header, header_subs, fired)
+        if ret:
+            header, n = rules.name_ret(header, ret)
+            if n:
+                fired.append(("W-ret", 1))
+        if proof_at_start:
+            k = body.index("{")
+            body = body[:k + 1] + " " + proof_at_start.strip() + " " + body[k + 1:]
+            fired.append(("W-ghost", 1))
+        return header, body
+
     def lift_closure(self, file, path, prefix, name, sig, spec="", subs=None, rules_=DEFAULT_FN_RULES, wrap=None, props=None,
                      attrs="", post_subs=None):
         """R-closure: the closure literal starting with `prefix` inside fn `path` is lifted to a function `name` with signature
